@@ -746,6 +746,22 @@ func c03Scenarios(tier string) []scenario {
 	return scs
 }
 
+// c14ConcScenarios: what the peer decodes while two goroutines write on a compressed
+// connection (a second Write arrives while a >64 KiB compressed stream is open): both
+// messages inflate, with the negotiated parameters, to what was written.
+func c14ConcScenarios(tier string) []scenario {
+	var scs []scenario
+	p := 1
+	if tier == "thorough" {
+		p = 2
+	}
+	for _, k := range []connCfg{{Client: false, Flate: true, Thr: 1}, {Client: true, Flate: true, Thr: 1, CNCT: true, SNCT: true}, {Client: true, Flate: true, Thr: 1, CNCT: true}} {
+		prm := c05Params{Prop: "C14", Name: "W2-big", K: k, Writers: [][]wop{{{Stream: true, Chunks: []int{70000, 10}}}, {{Text: true, Chunks: []int{10}}}}}
+		scs = append(scs, scenario{Name: prm.Name + "/" + k.String(), Cfg: explore.Config{P: p, Horizon: 60e9}, Setup: c05Setup(prm)})
+	}
+	return scs
+}
+
 // c04ConcScenarios: the same inbound message, but the transport ends inside its
 // payload: whatever the writers do meanwhile, the read fails.
 func c04ConcScenarios(tier string) []scenario {
@@ -766,6 +782,10 @@ func c04ConcScenarios(tier string) []scenario {
 }
 
 func init() {
+	fw.Register(fw.Part{Prop: "C14", Name: "s.conc",
+		Units:  func(tier string) []fw.Unit { return scenarioUnits(c14ConcScenarios(tier)) },
+		Replay: replayFn(c14ConcScenarios),
+	})
 	fw.Register(fw.Part{Prop: "C04", Name: "s.conc",
 		Units:  func(tier string) []fw.Unit { return scenarioUnits(c04ConcScenarios(tier)) },
 		Replay: replayFn(c04ConcScenarios),
